@@ -214,6 +214,7 @@ def o_parse_options(I, fn, n, args, st):
         for data in ("null", "set"):
             for combo in itertools.product(alts("in", data), alts("out", data), alts("err", data)):
                 s = st.copy()
+                s.mon["validated"] = tuple(next(iter(types)) for types, fld, val in combo)
                 for stream, (types, fld, val) in zip(("in", "out", "err"), combo):
                     s.mem[("f", ("f", red, stream), "type")] = types
                     if fld:
